@@ -71,12 +71,13 @@ Definition new_creader (s : source) (os : list wopt) : creader * ecls :=
   let fix go (w : writer) (os : list wopt) : writer * ecls :=
     match os with
     | [] => (w, ENil)
+    | OLegacy _ :: _ | OConcurrency _ :: _ => (w, ENotApp)   (* these options have no CompressingReader case *)
     | o :: r => let '(w1, e) := apply_opt w o in match e with ENil => go w1 r | _ => (w1, e) end
     end in
   let '(w1, _) := go w0 [OBlockSize lz4_Block4Mb; OChecksum true] in
   (* a second Apply resets the frame (ContentSize := 0) before applying *)
   let fo1 := w_opts w1 in
-  let w1' := mkw (w_state w1) (w_serr w1) (mkfo (fo_flags fo1) 0 (fo_level fo1) (fo_legacy fo1)) 0 0 [] [] (mksink [] 0 0) [] in
+  let w1' := mkw (w_state w1) (w_serr w1) (mkfo (lz4stream_DescriptorFlags_SizeSet (fo_flags fo1) false) 0 (fo_level fo1) (fo_legacy fo1)) 0 0 [] [] (mksink [] 0 0) [] in
   let '(w2, e) := match os with [] => (w1, ENil) | _ => go w1' os end in
   (mkcr CrInitial (w_opts w2) s [] [], e).
 
